@@ -60,3 +60,22 @@ Example C11_example :
   controllable sc [99] = true /\ controllable sc [114] = false /\ controllable sc [67; 119; 110; 100] = true /\
   controllable sc [95; 95; 120] = false /\ controllable sc [122] = false.
 Proof. vm_compute. repeat split; reflexivity. Qed.
+
+(* translator obligations (lib/gen_statespace.py reads the structs, statics and mutable bindings of the
+   modelled code on every run): the code has the state the model represents and no other *)
+From Portus Require Import StateTie.
+From PortusGen Require Import StateSpace.
+From Coq Require Import String.
+Open Scope string_scope.
+Theorem C11_source_handle_state : impl_fields_Datapath = model_fields_Datapath.
+Proof. exact fields_Datapath_tie. Qed.
+Print Assumptions C11_source_handle_state.
+Theorem C11_source_shared_state_lib : nth 0 impl_shared_state_tokens "" = "src/lib.rs: HashMap".
+Proof. exact shared_state_lib. Qed.
+Print Assumptions C11_source_shared_state_lib.
+
+(* the library has one process-wide static, the uid counter: nothing a handle or a lookup could
+   consult instead of the scope it is given *)
+Theorem C11_source_statics : impl_statics = model_statics.
+Proof. exact statics_tie. Qed.
+Print Assumptions C11_source_statics.
